@@ -20,7 +20,7 @@ CLAIMED = {
  "C19": ("COMP: the real TimerBasedElectionTrigger on the fake clock under seeded Register/Stop/advance/reader/hold interleavings (hook H3 holds fired timer goroutines; source-instrumented scheduling points preempt them in front of mutex acquisitions and channel operations); timeout function tabulated over 0..200 and boundary views", "3 C19", SIM + ": component on the simulated clock, trigger history vs. arming history"),
  "C14": ("RT: the NET world with one focus node under worker-select control (hook H1), gated SPI calls and UpdateState bursts (older / previous / equal / newer blocks); the main loop itself may be preempted at its lock points (H4) while UpdateState callers queue; every UpdateState must return by the next quiescent point (or, with a busy main loop, once it is released) and must have taken effect once the node is settled", "3 C14", SIM + ": post-quiescence state vs. sync history on the real two-goroutine runtime"),
  "C16": ("RT with cancellation of the focus node injected at a generated step (idle, mid-prepare, inside blocked SPI calls, during election / sync, real timer armed, worker with several pending events): WaitUntilShutdown returns - and not while a goroutine the library started is still inside a consumer call (slow log sink, late proposal) -, API calls with the cancelled context return, nothing fires during 72 h of simulated time, and the bubble ends with no blocked goroutine", "3 C16", SIM + ": fault enumeration over cancellation points of generated runs; shutdown / leak / after-effects oracle"),
- "C02": ("NET runs produce genuine COMMIT / PREPARE signatures, seed shares and stored proofs; a Byzantine block provider recombines them into forged certificates (subsets at the weight boundaries, duplicates, outsiders, cross-type, other view/height/instance incl. a parallel instance with the same keys, tampered seed signature, other block, mutated/truncated/random bytes) and offers them to live nodes in both modes; real validator nil => independent reference predicate. Honest caveat: the deciding dimension is inputs and configurations, sampled, not interleavings", "3 C02", SIM + ": forged certificates from simulated histories vs. reference predicate"),
+ "C02": ("NET runs produce genuine COMMIT / PREPARE signatures, seed shares and stored proofs; a Byzantine block provider recombines them into forged certificates (subsets at the weight boundaries, duplicates, outsiders, cross-type, other view/height/instance incl. a parallel instance with the same keys, tampered seed signature, other block, mutated/truncated/random bytes) and offers them to live nodes in both modes, sequentially and overlapped (the forged certificate's validation is held inside a slow KeyManager verification while another consumer thread validates a genuine pair on the same instance); real validator nil => independent reference predicate. Honest caveat: the main deciding dimension is inputs and configurations, sampled; the schedule dimension is the overlap of validation calls", "3 C02", SIM + ": forged certificates from simulated histories vs. reference predicate"),
  "C05": ("NET in two phases: adversarial prefix (any faults, any Byzantine behaviour), then a stabilised schedule (no loss among correct nodes, messages before timers, nominal base*2^view timers, Byzantine members keep sending): bounded liveness - some correct member of every quorum-weight height commits before the views exceed vmax+n+3, and acceptors of the deciding view commit", "3 C05", SIM + ": bounded liveness after faults stop"),
  "C18": ("NET runs (one in four): every vote destination, stored proposal sender and vote-storing node in the middle of real protocol traffic must be the member at (view mod n). UNIT: committees of 4..64 (two real nodes, puppets for the rest); PREPREPARE / VIEW_CHANGE with views from the boundary classes (0..4n dense, powers of two, neighbourhoods of 2^31, 2^32, 2^63, 2^64-1) and 4n consecutive timeouts; acceptance / destination must be the member at (view mod n); no recovered panic. The 64-bit range is input sampling carried by the simulator, not schedule search", "3 C18", SIM + ": leader rotation judged by behaviour of real nodes"),
 }
